@@ -428,6 +428,9 @@ PARSE_TEXTS = {
     'ds9:global': ('ds9', 'global color=yellow width=3 select=0 font="times 14 bold italic" dash=1\nimage;circle(1,2,3);-ellipse(4,5,3,2,10) # text={x}\n'),
     'ds9:no_global': ('ds9', 'image\ncircle(1,2,3)\npoint(7,8)\n# text(3,4) text={plain}\n'),
     'ds9:empty': ('ds9', '# Region file format: DS9\n'),
+    # the same property string on several lines (as in any real file); a repeated key is warned about on every line it is repeated on
+    'ds9:repeated_props': ('ds9', 'image\ncircle(1,2,3) # color=red color=blue tag={a} tag={b}\nbox(1,2,3,4,0) # color=red color=blue tag={a} tag={b}\n'
+                                  'circle(7,7,1) # tag={a} tag={b}\n'),
     'crtf:good': ('crtf', CRTF_TEXT),
     'crtf:global': ('crtf', '#CRTFv0\nglobal coord=GALACTIC, color=red, linewidth=3, symsize=2\ncircle[[120.0deg, -5.0deg], 10.0arcsec]\n'
                             'symbol[[120.1deg, -5.1deg], D]\n'),
@@ -446,7 +449,14 @@ def _parse_one(name):
     with warnings.catch_warnings(record=True) as w:
         warnings.simplefilter('always')
         try:
-            out = ['ok', FP.fp(_R().parse(str(text), format=fmt))]
+            got = _R().parse(str(text), format=fmt)
+            out = ['ok', FP.fp(got)]
+            # what a parse returns is the caller's: the caller edits it (tags appended, metadata changed) -- later parses must not see that
+            for r in got:
+                if isinstance(r.meta.get('tag'), list):
+                    r.meta['tag'].append('appended by the caller')
+                r.meta['text'] = 'set by the caller'
+                r.visual['color'] = 'caller'
         except Exception as exc:          # noqa: BLE001
             out = ['raise', type(exc).__name__, str(exc)[:300]]
     out.append(sorted(str(x.message)[:200] for x in w))
